@@ -174,7 +174,8 @@ def error_lines(out, relfile):
 
 def theorems_in(path):
     """(name, first line, last line) of every theorem in a Lean file"""
-    lines = open(path).read().split("\n")
+    txt = re.sub(r"/-.*?-/", lambda m: "\n" * m.group(0).count("\n"), open(path).read(), flags=re.S)
+    lines = txt.split("\n")
     starts = []
     for i, l in enumerate(lines):
         m = re.match(r"^theorem\s+([\w.']+)", l)
@@ -286,6 +287,12 @@ class Result:
         if text not in self.known_hits:
             self.known_hits.append(text)
     def finish(self, checker_cmd, trusted_base, extra=None):
+        bad = [o for o in self.obligations if not o[1]]
+        if bad and not self.violations:
+            # an undischarged obligation that no concrete failing input explains is still a violation
+            self.violation("proof obligations / correspondences no longer check and no failing input was found: %s" % ", ".join(b[0] for b in bad[:6]),
+                           {"kind": "theorem-broken", "unchecked": [b[0] for b in bad], "details": [b[2] for b in bad][:8],
+                            "lean_error": self.coverage.get("lean_error", "")})
         os.makedirs(EVID, exist_ok=True)
         os.makedirs(REPLAYS, exist_ok=True)
         cov = dict(self.coverage)
@@ -298,7 +305,7 @@ class Result:
         if extra:
             cov.update(extra)
         lines = []
-        for i, (text, replay) in enumerate(self.violations):
+        for i, (text, replay) in enumerate(self.violations[:10]):
             rp = os.path.join(REPLAYS, "%s_%s_%d_%d.json" % (self.prop, self.tier, self.seed, i))
             replay = dict(replay)
             replay.setdefault("property", self.prop)
@@ -314,13 +321,10 @@ class Result:
             print("KNOWN-FINDING: property=%s %s" % (self.prop, k))
         for l in lines:
             print(l)
-        for text, _ in self.violations:
-            print("  " + text)
-        bad = [o for o in self.obligations if not o[1]]
-        if bad and not self.violations:
-            # an undischarged obligation must not pass silently
-            print("INTERNAL: undischarged obligations without a violation report: %s" % [b[0] for b in bad])
-            return 2
+        for text, _ in self.violations[:10]:
+            print("  " + text[:600])
+        if len(self.violations) > 10:
+            print("  ... and %d more violations (counted in the evidence file)" % (len(self.violations) - 10))
         print("%s %s: %d/%d obligations discharged, %d violations, %d known findings, %.1fs" % (
             self.prop, self.tier, cov["discharged"], cov["obligations"], len(self.violations), len(self.known_hits), time.time() - self.t0))
         return 1 if self.violations else 0
